@@ -1,8 +1,10 @@
-\* the tree as found (delete_* do not flush, commit does not flush, abort keeps the pending set): TLC must FAIL
+\* the tree as found: TLC must FAIL (stale cache after delete)
 CONSTANTS MaxAtom = 3
  FlushOnDelete = FALSE
  FlushOnCommit = FALSE
  ResetChangedOnAbort = FALSE
+ DiscardOnDelete = FALSE
+ RecalcAllOnCommit = FALSE
 SPECIFICATION Spec
 INVARIANT CacheCoherent
 INVARIANT HydrogensFresh
